@@ -33,6 +33,8 @@ func c13(c *Ctx) {
 	c13R8(c, gens)
 	c13R9(c)
 	c13R10(c)
+	c13R12(c, gens)
+	c13R13(c)
 	ruleArgSwap(c, "C13.R11", c.P.AllFuncs(), "the whole module (pod namespace / name pairs select the host-side link a teardown removes)")
 	itemIndependent(c, "C13.R7", [][3]string{{"daemon", "ruleSync", "one rule set per pod interface"}})
 }
@@ -963,4 +965,105 @@ func c13R10(c *Ctx) {
 	}
 	c.Check(oif, "C13.R10", "FoundRoutes: a route that names a link is looked up on that link", p.Pos(list), fn.Key(), "if find.LinkIndex > 0 { mask |= RT_FILTER_OIF }", "not found")
 	c.Floor("C13.R10", "definitions of the filter mask", 3, len(defs))
+}
+
+// R12: the container-side configuration is computed from the link as the pod's namespace sees it. Every
+// call of a container generator (generateContCfgFor…) stands inside the function literal handed to
+// <netns>.Do, and the link it receives is defined inside that literal: the kernel may renumber an
+// interface when it moves it into a namespace where its index is taken, and every route, rule and table
+// of the generated configuration is derived from that index.
+func c13R12(c *Ctx, gens []*FuncInfo) {
+	p := c.P
+	c.Rule("C13.R12", "container-side generators are called inside the pod's network namespace (<netns>.Do(func…)) with a link handle read inside that closure — never with the handle read in the host namespace before the move")
+	n := 0
+	for _, g := range gens {
+		if !isContainerGen(g) {
+			continue
+		}
+		for _, cs := range p.CallsTo(nil, g.Obj) {
+			n++
+			fn := cs.Fn
+			info := fn.Info()
+			var lit *ast.FuncLit
+			path := pathTo(fn.Decl.Body, cs.Call)
+			for i, anc := range path {
+				fl, ok := anc.(*ast.FuncLit)
+				if !ok || i == 0 {
+					continue
+				}
+				// the literal is an argument of a call <x>.Do(…)
+				if call, ok := path[i-1].(*ast.CallExpr); ok {
+					if sel, ok := ast.Unparen(call.Fun).(*ast.SelectorExpr); ok && sel.Sel.Name == "Do" {
+						lit = fl
+					}
+				}
+			}
+			key := fn.Key() + ": " + g.Name + " runs on the link as seen inside the pod"
+			if lit == nil {
+				c.Bad("C13.R12", key, p.Pos(cs.Call), fn.Key(), "the call stands inside <netns>.Do(func…)", "called outside the namespace closure")
+				continue
+			}
+			// the link argument: the one whose type implements netlink.Link
+			okLink, seenLink := true, false
+			for _, a := range cs.Call.Args {
+				t := info.TypeOf(a)
+				if t == nil || !strings.HasSuffix(t.String(), "netlink.Link") {
+					continue
+				}
+				seenLink = true
+				o := identObj(info, a)
+				if o == nil || !(o.Pos() > lit.Pos() && o.Pos() < lit.End()) {
+					okLink = false
+				}
+			}
+			c.Check(okLink && seenLink, "C13.R12", key, p.Pos(cs.Call), fn.Key(), "the link variable is declared inside the closure (LinkByName / LinkByIndex after the move)", "the link handle comes from outside the closure")
+		}
+	}
+	c.Floor("C13.R12", "calls of container-side generators", 4, n)
+}
+
+// R13: teardown before release. doCmdDel removes the pod's rules and routes (selected by the pod's
+// address) before it hands the address back to the daemon; afterwards the address may belong to another
+// pod whose rules the same selectors would match.
+func c13R13(c *Ctx) {
+	p := c.P
+	c.Rule("C13.R13", "doCmdDel: the ReleaseIP request is sent only after the datapath teardown (never-before: no path leads from ReleaseIP to a Teardown call)")
+	fn := p.Func(pluginPkg, "doCmdDel")
+	if fn == nil {
+		c.Unres("C13.R13", "doCmdDel", "not found")
+		return
+	}
+	info := fn.Info()
+	var rel []*ast.CallExpr
+	var tears []*ast.CallExpr
+	ast.Inspect(fn.Decl.Body, func(k ast.Node) bool {
+		if call, ok := k.(*ast.CallExpr); ok {
+			if f := Callee(info, call); f != nil {
+				switch f.Name() {
+				case "ReleaseIP":
+					rel = append(rel, call)
+				case "Teardown":
+					tears = append(tears, call)
+				}
+			}
+		}
+		return true
+	})
+	c.Floor("C13.R13", "ReleaseIP calls in doCmdDel", 1, len(rel))
+	c.Floor("C13.R13", "Teardown calls in doCmdDel", 2, len(tears))
+	contains := func(calls []*ast.CallExpr) nodePred {
+		return func(k ast.Node) bool {
+			for _, x := range calls {
+				if k.Pos() <= x.Pos() && x.End() <= k.End() {
+					return true
+				}
+			}
+			return false
+		}
+	}
+	q := NewPathQuery(p, fn, nil)
+	for _, r := range rel {
+		w := q.Escapes(contains([]*ast.CallExpr{r}), contains(tears), nil, nil)
+		c.Check(w == nil, "C13.R13", "doCmdDel: no teardown after the address was handed back", p.Pos(r), fn.Key(), "never-before: ReleaseIP → Teardown", "path: "+p.describePath(w))
+	}
 }
